@@ -579,6 +579,13 @@ class Exec:
             r = self._builtin(st, e, fname, args, kwargs)
             if r is not NotImplemented:
                 return r
+            # a plain (undecorated) top-level function of the module under execution that no theory and no contract knows: execute it from
+            # its own source (what a refactoring that extracts a helper needs); recursion is stopped by the inlining depth limit
+            fdef = self._same_module_function(fname)
+            if fdef is not None and fname not in st.env:
+                self.inline[fname] = (self.mod, fdef)
+                self.use('inlined:%s - a helper of the same module without a contract of its own, executed from its source' % fname)
+                return self.call_inline_expr(st, fname, args, kwargs)
             raise OutOfSubset('call %s(%s)' % (fname, ','.join(a.kind for a in args)))
         fn = self.eval(st, e.func)
         args, kwargs = self._args(st, e, star=(fn.kind != 'func'))
@@ -588,6 +595,15 @@ class Exec:
         if r is NotImplemented:
             raise OutOfSubset('call of %s value' % fn.kind)
         return r
+
+    def _same_module_function(self, fname):
+        try:
+            for n in self.mod.tree.body:
+                if isinstance(n, ast.FunctionDef) and n.name == fname and not n.decorator_list:
+                    return self.mod.func(fname)
+        except Exception:       # noqa
+            return None
+        return None
 
     def _args(self, st, e, star=False):
         args = []
